@@ -134,8 +134,19 @@ def gen_config(t: Tape, i: int) -> dict:
         "umask": t.pick(UMASKS, "cfg.umask"),
         "epoch": t.pick([E0, 0.0, 4_102_444_800.0, 951_782_400.0], "cfg.epoch"),
         "history": t.choose(4, "cfg.hist"),
+        # who and where the process is: user, host, terminal, HOME -- none of it is an argument of a call
+        "ident": t.choose(len(IDENTS), "cfg.ident"),
     }
     return cfg
+
+
+IDENTS = [
+    {},
+    {"USER": "alice", "LOGNAME": "alice", "HOSTNAME": "build-7", "COLUMNS": "40", "LINES": "10", "TERM": "dumb", "NO_COLOR": "1", "HOME": "<SB>/home-a"},
+    {"USER": "bob", "LOGNAME": "bob", "HOSTNAME": "laptop.example.org", "COLUMNS": "220", "TERM": "xterm-256color", "FORCE_COLOR": "1",
+     "CLICOLOR_FORCE": "1", "HOME": "<SB>/home-b", "TMPDIR": "<SB>/tmp-b"},
+    {"USER": "", "HOSTNAME": "h", "COLUMNS": "1", "TERM": "", "HOME": "/nonexistent"},
+]
 
 
 def cwd_path(name: str) -> str:
@@ -155,6 +166,14 @@ def run_interpreter(cfg: dict, calls: list, history: list, timeout: float = 600.
         pp.insert(0, os.environ["VERIF_REPO_SRC"])
     env["PYTHONPATH"] = os.pathsep.join(pp)
     sb = sandbox_dir(f"i{abs(hash(json.dumps(cfg, sort_keys=True))) % 10 ** 8}")
+    ident = IDENTS[cfg.get("ident", 0) % len(IDENTS)]
+    for k, v in ident.items():
+        v = v.replace("<SB>", sb)
+        env[k] = v
+        if k == "TMPDIR":
+            os.makedirs(v, exist_ok=True)
+    if ident.get("HOSTNAME"):
+        env["VERIF_FAKE_HOST"] = ident["HOSTNAME"]  # the worker makes socket.gethostname()/platform.node() answer with it
     job = {"sandbox": sb, "calls": calls, "history": history, "clock": {"epoch": cfg["epoch"]}, "umask": cfg["umask"]}
     p = subprocess.run([sys.executable, "-m", "sim.c06_worker"], input=json.dumps(job), capture_output=True, text=True, env=env,
                        cwd=cwd_path(cfg["cwd"]), timeout=timeout)
@@ -228,9 +247,9 @@ def run_grid_case(case: dict, stats: Stats | None = None) -> dict:
     if stats is not None:
         stats.inc("runs")
         stats.inc("interpreters")
-        stats.distinct("configs", json.dumps({k: cfg[k] for k in ("hashseed", "cwd", "locale", "tz", "umask")}, sort_keys=True))
-        for k in ("hashseed", "cwd", "locale", "tz", "umask", "epoch"):
-            stats.group("cfg_" + k, str(cfg[k]))
+        stats.distinct("configs", json.dumps({k: cfg.get(k) for k in ("hashseed", "cwd", "locale", "tz", "umask", "ident")}, sort_keys=True))
+        for k in ("hashseed", "cwd", "locale", "tz", "umask", "epoch", "ident"):
+            stats.group("cfg_" + k, str(cfg.get(k)))
         stats.group("worker_encoding", got["env"]["locale"])
     return {"violations": viols, "log": log, "digest": digest(log)}
 
@@ -940,7 +959,7 @@ def minimise(case: dict, clause: str, sig: str, budget: int = 40) -> dict:
                 if fails(c):
                     cur = c
                     break
-        for k, simple in (("history", 0), ("locale", None), ("tz", "UTC"), ("umask", 0o022), ("epoch", E0), ("cwd", "proj0")):
+        for k, simple in (("history", 0), ("locale", None), ("tz", "UTC"), ("umask", 0o022), ("epoch", E0), ("cwd", "proj0"), ("ident", 0)):
             if cur["cfg"].get(k) != simple and runs < budget:
                 c = copy.deepcopy(cur)
                 c["cfg"][k] = simple
